@@ -412,16 +412,26 @@ def r6(repo, run):
     spell = {'file': [('file', ('file', None))], 'parent': [('parent', ('parent', 0)), ('parent(1)', ('parent', 1)), ('parent(3)', ('parent', 3))]}
     bad = []
     rows = 0
+    changed = []
     for kind in sorted(needs):
         for text, parsed in spell.get(kind, []):
-            node = node_obj('p', 'PathNode', ref_point=text, _ref_point_parsed=parsed, _source_file='/d/conf.yaml')
+          for src in ('/d/conf.yaml', 'configs/exp/base.yaml', './base.yaml'):
+            node = node_obj('p', 'PathNode', ref_point=text, _ref_point_parsed=parsed, _source_file=src)
             f = FDE(repo, stubs={'_get_value'}, stub=lambda name, recv, args, kwargs: ['a', 'b'])
+            from .common import fs_extcalls
+            f.extcalls = fs_extcalls()
             r = fde_guard(lambda: f.getter(node, 'value'))
             rows += 1
             if not isinstance(r, dict):
                 raise AnalysisError('PathNode.ayns.value does not evaluate to a mapping')
-            if r.get('source_file') != '/d/conf.yaml':
+            if r.get('source_file') is None:
                 bad.append(text)
+            elif r.get('source_file') != src:
+                changed.append((text, src, r.get('source_file')))
+    if changed and not bad:
+        text, src, got = changed[0]
+        run.violation('C18.R6', fi, 'PathNode.ayns.value', 'a !path:%s node parsed from %r writes source_file %r into the dump: the file-relative reference points are computed from that name, so the re-parsed node evaluates to a different path than the original (%d spellings)' % (text, src, got, len(changed)))
+        return
     if bad:
         run.violation('C18.R6', fi, 'PathNode.ayns.value', 'a !path:%s node does not carry its source file through a dump (value has %s): the re-parsed node resolves against the location of the dump, not of the original file' % (bad[0], 'no source_file for ' + ', '.join(bad)))
     else:
